@@ -9,8 +9,8 @@
 //	del <min> <max> <pred> <n|h>               Store.DeleteSeriesWithPredicate       -> ok | err:<enum>
 //	                                           pred: C16 prefix form or "-" (nil); h = measurement
 //	                                           expression derived as http/delete_handler.go does
-//	read <shard>                               all points of all series ever written -> hexkey=t:v,..;..
-//	ls <shard>                                 series listed by the shard's index    -> hexkey,hexkey
+//	read <shard>                               all points of all series ever written -> <series>=t:v,..;..   series = hexname@hexk:hexv&..
+//	ls <shard>                                 series listed by the shard's index    -> <series>,<series>   (both sorted by series key)
 //	mn <auth> <cond>                           Store.MeasurementNames                -> hexname,...
 //	tk <auth> <shards> <nc> <kc> <filter>      Store.TagKeys                         -> hexname=hexkey,..;..
 //	tv <auth> <shards> <nc> <kc> <filter>      Store.TagValues                       -> hexname=hexk:hexv,..;..
@@ -486,6 +486,11 @@ func (r *Runner) Op(t []string) string {
 		return "bad-op"
 	}
 	ctx := context.Background()
+	if r.Extra != nil && strings.HasPrefix(t[0], "ep") {
+		if a, ok := r.Extra(r, t); ok {
+			return a
+		}
+	}
 	if r.NShard == 0 && t[0] != "open" {
 		return "bad-op"
 	}
@@ -661,6 +666,15 @@ func (r *Runner) Op(t []string) string {
 	return "bad-op"
 }
 
+// SeriesID prints a series as <hexname>@<hexk>:<hexv>&<hexk>:<hexv> (name and tags, not the key).
+func SeriesID(name []byte, tags models.Tags) string {
+	var ts []string
+	for _, t := range tags {
+		ts = append(ts, h.Hex(t.Key)+":"+h.Hex(t.Value))
+	}
+	return h.Hex(name) + "@" + strings.Join(ts, "&")
+}
+
 func (r *Runner) shard(tok string) *tsdb.Shard {
 	ids, ok := parseShards(tok)
 	if !ok || len(ids) != 1 {
@@ -710,7 +724,7 @@ func (r *Runner) read(sh *tsdb.Shard) string {
 		}
 		ic.Close()
 		if len(pts) > 0 {
-			parts = append(parts, h.HexS(k)+"="+strings.Join(pts, ","))
+			parts = append(parts, SeriesID(ref.name, ref.tags)+"="+strings.Join(pts, ","))
 		}
 	}
 	if len(parts) == 0 {
@@ -743,9 +757,13 @@ func (r *Runner) list(sh *tsdb.Shard) string {
 			return ErrEnum(err)
 		}
 		for _, k := range keys {
-			out = append(out, h.Hex(k))
+			out = append(out, string(k))
 		}
 	}
-	sort.Strings(out)
+	sort.Strings(out) // by series key, as `read`
+	for i, k := range out {
+		name, tags := models.ParseKeyBytes([]byte(k))
+		out[i] = SeriesID(name, tags)
+	}
 	return h.Join(out)
 }
